@@ -126,3 +126,37 @@ func VerifC20Race() {
 	verifapi.Assert(oks == 1 && refused == 1, "c20.concurrent-starts-one-wins")
 	verifapi.Assert(verifapi.LiveGoroutines() == 1, "c20.race-exactly-one-loop")
 }
+
+// VerifC20EarlyWait: somebody starts waiting for the agent before, or while,
+// it is being started (at any point of Start, delays permitting): the loop
+// ending - by Stop or by a failed keep-alive - still makes that wait return,
+// with the loop's result.
+func VerifC20EarlyWait() {
+	node := &verifNode{ua: ethnode.UserAgent{Kind: ethnode.Geth}}
+	script := &verifPoolScript{}
+	a := &Agent{EthNode: node}
+	returned, failed := false, false
+	go func() {
+		err := a.Wait()
+		returned, failed = true, err != nil
+	}()
+	if verifapi.Bool("waiter-first") {
+		verifapi.Quiesce() // the waiter is blocked before Start begins
+	}
+	err := a.Start(script)
+	verifapi.Quiesce()
+	verifapi.Assert(err == nil, "c20.start-succeeds")
+	verifapi.Assert(!returned, "c20.wait-blocks-while-running")
+	byFailure := verifapi.Bool("keepalive-fails")
+	if byFailure {
+		script.failUpdateAt = script.updates + 1
+		verifapi.FireTicker(verifapi.Tickers() - 1)
+	} else {
+		a.Stop()
+	}
+	verifapi.Quiesce()
+	verifapi.Reach("c20.earlywait")
+	verifapi.Assert(returned, "c20.wait-returns-after-loop-ends")
+	verifapi.Assert(failed == byFailure, "c20.wait-reports-the-loops-result")
+	verifapi.Assert(verifapi.LiveGoroutines() == 0, "c20.stop-ends-the-loop")
+}
